@@ -172,7 +172,7 @@ def outcome(fp, inst, G=None):
     """dict(status=solved/unsolved/timeout/rejected/raised <exc>, routes, obj, greedy)"""
     import time
     cls = inst["cls"]
-    inst = dict(inst, solver_options={"time_limit": TIME_LIMIT})
+    inst = dict(inst, solver_options=dict(inst.get("solver_options") or {}, time_limit=TIME_LIMIT))
     t0 = time.time()
     try:
         m = models.build(fp, inst, G=G)
@@ -521,8 +521,19 @@ def k5_constraint_monotone(ctx, inst, suite="K5.constraint_monotone"):
                       site=f"{cls}.constraint_monotone")
     if free_ok:
         if b["status"] != "solved":
-            ctx.violation(f"{cls}: the solution found without constraints satisfies every constraint, yet the constrained model is unsolved",
-                          payload, site=f"{cls}.constraint_monotone")
+            what = f"{cls}: the solution found without constraints satisfies every constraint, yet the constrained model is unsolved"
+            # diagnosis: is the MILP feasible after all (HiGHS with presolve switched off)?
+            try:
+                c = outcome(ctx.fp, dict(inst, solver_options={"time_limit": 60, "presolve": "off"}))
+                if c["status"] == "solved":
+                    payload["presolve_off"] = brief(c)
+                    frac_caps = models.is_cyc(cls) and any(frac(x[2]).denominator != 1 for x in inst.get("flow", []))
+                    what += (" - explained by HiGHS presolve: with presolve off the same model is solved"
+                             + (" (an integer column has a fractional upper bound: the repetition cap is a float flow value)"
+                                if frac_caps else ""))
+            except Exception:
+                pass
+            ctx.violation(what, payload, site=f"{cls}.constraint_monotone")
         elif a["obj"] is not None and abs(a["obj"] - b["obj"]) > TOL * max(1.0, abs(a["obj"])):
             ctx.violation(f"{cls}: the unconstrained optimum ({a['obj']}) satisfies every constraint but the constrained objective is {b['obj']}",
                           payload, site=f"{cls}.constraint_monotone")
